@@ -199,3 +199,90 @@ func orphans(r *ev.Run) {
 		}
 	}
 }
+
+// purgeRefused: the underlying agent holds an out-of-window certificate and refuses to remove anything (failure reply
+// to every remove request). The purge cannot succeed; the certificate is not listed and cannot be signed with all the same.
+func purgeRefused(r *ev.Run) {
+	idx := 0
+	for _, noUp := range []bool{false, true} {
+		for _, window := range []string{"expired", "premature", "zero"} {
+			for _, first := range []string{"sign", "list", "signers"} {
+				c := r.Case("purge-refused", idx)
+				idx++
+				if c == nil {
+					continue
+				}
+				rec := map[string]any{"no_upstream": noUp, "window": window, "first_operation": first}
+				r.Eval(1)
+				r.Guard(c, "purge refused", rec, func() {
+					ag := wire.New()
+					defer ag.Close()
+					sock, err := ag.Listen()
+					if err != nil {
+						r.Inconclusive(err.Error())
+						return
+					}
+					pool := gen.Pool()
+					k1, k2 := pool[0], pool[9]
+					now := uint64(time.Now().Unix())
+					va, vb := now-7200, now-3600
+					switch window {
+					case "premature":
+						va, vb = now+3600, now+7200
+					case "zero":
+						va, vb = 0, 0
+					}
+					bad := gen.MakeCert(gen.CertSpec{Key: k2, KeyID: "out-of-window@example", ValidAfter: va, ValidBefore: vb, Principals: []string{"u"}, Serial: uint64(c.Rand.Int63())})
+					ag.Keyring.Add(agent.AddedKey{PrivateKey: k1.Priv, Comment: "k1"})
+					s, err := shimagent.New(shimagent.Option{Address: sock, NoUpstream: noUp})
+					if err != nil {
+						r.Violation(c, "shim-construction-fails-without-fault", err.Error(), rec)
+						return
+					}
+					defer s.Close()
+					// the certificate arrives behind the shim's back, then removals start to be refused
+					ag.Keyring.Add(agent.AddedKey{PrivateKey: k2.Priv, Certificate: bad, Comment: "bad"})
+					ag.SetPlan(func(_ int, req []byte) wire.Action {
+						if len(req) > 0 && req[0] == 18 {
+							return wire.Action{Kind: wire.Failure}
+						}
+						return wire.Action{Kind: wire.Honest}
+					})
+					listed := func(keys []*agent.Key) bool {
+						for _, k := range keys {
+							if string(k.Blob) == string(bad.Marshal()) {
+								return true
+							}
+						}
+						return false
+					}
+					for _, op := range []string{first, "sign", "list", "signers", "sign"} {
+						switch op {
+						case "sign":
+							if sig, err := s.Sign(bad, []byte("data")); err == nil {
+								r.Violation(c, "sign-with-out-of-window-cert-succeeds:"+window+":purge-refused", fmt.Sprintf("the underlying agent refuses the removal of the %s certificate; Sign with it returned a signature (%d bytes)", window, len(sig.Blob)), rec)
+								return
+							}
+						case "list":
+							if l, err := s.List(); err == nil && listed(l) {
+								r.Violation(c, "out-of-window-cert-listed:"+window+":purge-refused", "List", rec)
+								return
+							}
+						case "signers":
+							if sg, err := s.Signers(); err == nil {
+								for _, x := range sg {
+									if string(x.PublicKey().Marshal()) == string(bad.Marshal()) {
+										r.Violation(c, "out-of-window-cert-listed:"+window+":purge-refused", "Signers", rec)
+										return
+									}
+								}
+							}
+						}
+					}
+					r.Count("histories with an out-of-window certificate the underlying agent refuses to remove", 1)
+					r.Nontrivial(fmt.Sprintf("purge-refused:%v:%s:%s", noUp, window, first))
+				})
+			}
+		}
+	}
+}
